@@ -107,6 +107,13 @@ func (f *format) refEncode(x float32) (code uint8, wantNaN bool) {
 }
 
 var formats = sync.OnceValue(func() []*format {
+	// what a code decodes to does not depend on which codes were decoded before it: the first decodes of the process take the
+	// negative codes, highest first (the format tables below are then built from the positive ones)
+	for c := 255; c >= 128; c-- {
+		_ = core.FP8E4M3(uint8(c)).ToFloat32()
+		_ = core.FP8E5M2(uint8(c)).ToFloat32()
+		_ = core.BFloat16(uint16(c) << 8).ToFloat32()
+	}
 	return []*format{
 		buildFormat("e4m3", func(c uint8) float32 { return core.FP8E4M3(c).ToFloat32() },
 			func(x float32) uint8 { return uint8(core.Float32ToFP8E4M3(x)) }),
